@@ -188,6 +188,41 @@ func main() {
 			jobs <- job{kind: 's', path: path, reqSx: "n", doc: serialize(root, rng, true)}
 		}
 	}
+	// ---- around encoding/xml's nesting limit
+	deepQ := func(cf cfV, cr crV, client bool) {
+		r := request{cr: cr, cf: cf}
+		if client {
+			jobs <- job{kind: 'c', path: "/cal/", req: r}
+		}
+		root, pairs := rfcDocument(r)
+		jobs <- job{kind: 's', path: "/cal/", reqSx: hx.L("r", requestSx(r)), doc: serialize(root, rng, true), pairs: pairs}
+	}
+	plainCr := crV{name: "VCALENDAR", allprops: true, allcomps: true}
+	plainCf := cfV{name: "VCALENDAR", start: zeroInst, end: zeroInst}
+	deepQ(deepCf(4999, false), plainCr, true)
+	deepQ(deepCf(5000, false), plainCr, true)
+	if thorough {
+		for _, n := range []int{4990, 4998, 5001, 5002} {
+			deepQ(deepCf(n, false), plainCr, n == 5001)
+		}
+		for _, n := range []int{4996, 4997, 4998, 4999} {
+			deepQ(deepCf(n, true), plainCr, false)
+		}
+		for _, n := range []int{4999, 5000, 5001, 5002} {
+			deepQ(plainCf, deepCr(n, false), n == 5000 || n == 5001)
+			deepQ(plainCf, deepCr(n, true), false)
+		}
+		// a multiget with a deep component request
+		for _, n := range []int{5000, 5001} {
+			r := request{multiget: true, cr: deepCr(n, false), paths: []string{"/cal/a.ics"}}
+			root, pairs := rfcDocument(r)
+			jobs <- job{kind: 's', path: "/cal/", reqSx: hx.L("r", requestSx(r)), doc: serialize(root, rng, true), pairs: pairs}
+		}
+		for _, n := range []int{4990, 5005, 12000} {
+			jobs <- job{kind: 's', path: "/cal/", reqSx: "n", doc: deepUnknown(n, false)}
+			jobs <- job{kind: 's', path: "/cal/", reqSx: "n", doc: deepUnknown(n, true)}
+		}
+	}
 	for _, d := range rawDocs {
 		jobs <- job{kind: 's', path: "/cal/", reqSx: "n", doc: []byte(d)}
 	}
